@@ -58,6 +58,22 @@ def growth_specs():
                         {'o': 'iterappend', 'items': [{'n': 2, 'seed': 70, 'form': 'nd'}, {'n': 0, 'seed': 71, 'form': 'nd'}], 'gen': False},
                         {'o': 'meta', 'a': 'set', 'k': 'a'}, {'o': 'trunc', 'i': 0, 'by': 'obj'}, {'o': 'append', 'item': {'n': 1, 'seed': 72, 'form': 'nd'}}]
                 yield {'kind': 'ragged', 'growth': via, 'start': start, 'ops': ops}
+    # shrink below five subarrays on the SAME handle, then regrow with other lengths (anything cached per position would show)
+    for atom, dt in (([], {'t': 'int16', 'bo': '>'}), ([2], {'t': 'float32', 'bo': '<'})):
+        start = {'how': 'as', 'dt': dt, 'atom': atom, 'indextype': 'int64', 'meta': None, 'mode': 'r+', 'dtarg': True, 'gen': False,
+                 'items': [{'n': 1 + i % 3, 'seed': i, 'form': 'nd'} for i in range(7)]}
+        ops = [{'o': 'trunc', 'i': 2, 'by': 'obj'}] + [{'o': 'append', 'item': {'n': 4 - i % 3, 'seed': 30 + i, 'form': 'nd'}} for i in range(5)] + \
+              [{'o': 'trunc', 'i': 3, 'by': 'path'}, {'o': 'iterappend', 'items': [{'n': 0, 'seed': 40, 'form': 'nd'}, {'n': 2, 'seed': 41, 'form': 'nd'}], 'gen': True},
+               {'o': 'trunc', 'i': 1, 'by': 'obj'}, {'o': 'append', 'item': {'n': 3, 'seed': 42, 'form': 'nd'}}]
+        yield {'kind': 'ragged', 'growth': 'append', 'start': start, 'ops': ops}
+    # Array handles constructed read-only, switched to r+, then first metadata key created / last one removed
+    for how in ('asarray', 'create'):
+        for meta in (False, True):
+            st0 = {'dt': {'t': 'int32', 'bo': '<'}, 'shape': [3, 2], 'seed': 5, 'how': how, 'mode': 'r', 'meta': meta, 'layout': 'C', 'chunklen': 2}
+            yield {'start': st0, 'ops': [{'o': 'mode', 'm': 'r+'}, {'o': 'meta', 'a': 'clear', 'k': 'a'}, {'o': 'meta', 'a': 'set', 'k': 'a'},
+                                         {'o': 'append', 'arg': {'k': 'rows', 'n': 1, 'seed': 2}}, {'o': 'meta', 'a': 'del', 'k': 'a'},
+                                         {'o': 'reopen', 'm': 'r'}, {'o': 'mode', 'm': 'r+'}, {'o': 'meta', 'a': 'set', 'k': 'b'},
+                                         {'o': 'copy', 'chunklen': 2}, {'o': 'meta', 'a': 'clear', 'k': 'a'}, {'o': 'meta', 'a': 'set', 'k': 'a'}]}
     start = {'how': 'create', 'dt': {'t': 'complex64', 'bo': '<'}, 'atom': [2], 'indextype': 'int64', 'meta': 'dict', 'mode': 'r+', 'dtarg': True}
     yield {'kind': 'ragged', 'growth': 'append', 'start': start,
            'ops': [{'o': 'append', 'item': {'n': i % 3, 'seed': i, 'form': 'nd'}} for i in range(8)]}
